@@ -309,7 +309,9 @@ type c10PemBody struct {
 func c10PemBodies(strong, weak *c10Key) []c10PemBody {
 	var out []c10PemBody
 	add := func(note, text string) { out = append(out, c10PemBody{text, note}) }
-	blk := func(typ string, der []byte) string { return string(pem.EncodeToMemory(&pem.Block{Type: typ, Bytes: der})) }
+	blk := func(typ string, der []byte) string {
+		return string(pem.EncodeToMemory(&pem.Block{Type: typ, Bytes: der}))
+	}
 	var pkcs1 []byte
 	if rk, ok := strong.pub.(*rsa.PublicKey); ok {
 		pkcs1 = x509.MarshalPKCS1PublicKey(rk)
@@ -469,5 +471,127 @@ func c10PemStage(env *verifEnv, res *verifResult, corpus []*c10Key, request c10R
 		}
 	}
 	res.Extra["pem_cases"] = len(cases)
+	return cases, idx
+}
+
+// ---------------------------------------------------------------- (i) the pubkey form parameter of the role paths
+
+type c10ParamValues struct {
+	note   string
+	values []string
+}
+
+func c10ParamCorpus(strong, weak *c10Key) []c10ParamValues {
+	ru := func(b []byte) string { return base64.RawURLEncoding.EncodeToString(b) }
+	s, w := ru(strong.der), ru(weak.der)
+	var out []c10ParamValues
+	add := func(note string, v ...string) { out = append(out, c10ParamValues{note, v}) }
+	add("strong key", s)
+	add("weak key", w)
+	add("no parameter")
+	add("empty value", "")
+	add("empty value, then the strong key", "", s)
+	add("weak then strong", w, s)
+	add("strong then weak", s, w)
+	add("garbage then strong", "!!", s)
+	add("padded base64url", base64.URLEncoding.EncodeToString(strong.der))
+	add("padded base64url of the weak key", base64.URLEncoding.EncodeToString(weak.der))
+	add("standard alphabet", base64.StdEncoding.EncodeToString(strong.der))
+	add("standard alphabet, no padding", base64.RawStdEncoding.EncodeToString(strong.der))
+	add("trailing newline", s+"\n")
+	add("trailing CRLF", s+"\r\n")
+	add("newline in the middle", s[:20]+"\n"+s[20:])
+	add("leading space", " "+s)
+	add("trailing space", s+" ")
+	add("trailing '='", s+"=")
+	add("trailing NUL", s+"\x00")
+	add("one character short", s[:len(s)-1])
+	add("one character more", s+"A")
+	add("hex", fmt.Sprintf("%x", strong.der))
+	add("PEM text", c10Pem(strong.der))
+	add("base64url of the PEM text", ru([]byte(c10Pem(strong.der))))
+	add("DER with trailing bytes", ru(append(append([]byte{}, strong.der...), 0, 0)))
+	add("weak DER followed by the strong DER", ru(append(append([]byte{}, weak.der...), strong.der...)))
+	add("strong DER followed by the weak DER", ru(append(append([]byte{}, strong.der...), weak.der...)))
+	add("DER truncated", ru(strong.der[:len(strong.der)/2]))
+	add("one byte", ru([]byte{0x30}))
+	add("indefinite length", ru([]byte{0x30, 0x80, 0x00, 0x00}))
+	add("huge declared length", ru([]byte{0x30, 0x84, 0x7f, 0xff, 0xff, 0xff}))
+	if rk, ok := strong.pub.(*rsa.PublicKey); ok {
+		add("PKCS#1 DER", ru(x509.MarshalPKCS1PublicKey(rk)))
+	}
+	add("100 kB of 'A'", strings.Repeat("A", 100000))
+	add("only '-'", "----")
+	return out
+}
+
+type c10RoleRequester func(path string, pubkeys []string) *http.Request
+
+func c10ParamStage(env *verifEnv, res *verifResult, corpus []*c10Key, roleReq c10RoleRequester) (cases, idx []string) {
+	byDesc := map[string]*c10Key{}
+	for _, k := range corpus {
+		byDesc[k.desc] = k
+	}
+	type pair struct{ s, w *c10Key }
+	pairs := []pair{{byDesc["ecdsa-p256"], byDesc["ecdsa-p224"]}, {byDesc["rsa-2048-e65537"], byDesc["rsa-2047-e65537"]}, {byDesc["rsa-3072-e65537"], byDesc["x25519"]}}
+	if !verifThorough() {
+		pairs = []pair{pairs[int(verifSeed())%len(pairs)]}
+	}
+	for _, pr := range pairs {
+		if pr.s == nil || pr.w == nil || pr.s.der == nil || pr.w.der == nil {
+			continue
+		}
+		for _, pv := range c10ParamCorpus(pr.s, pr.w) {
+			// what the libraries make of each value (in front of the model)
+			var coq []string
+			expectStrong := false
+			for i, v := range pv.values {
+				switch der, err := base64.RawURLEncoding.DecodeString(v); {
+				case v == "":
+					coq = append(coq, "(0, None)")
+				case err != nil:
+					coq = append(coq, "(1, None)")
+				default:
+					pub, perr := x509.ParsePKIXPublicKey(der)
+					coq = append(coq, fmt.Sprintf("(2, %s)", c10CoqKeyDesc(pub, perr == nil)))
+					if i == 0 && perr == nil {
+						expectStrong = c10Strong(pub)
+					}
+				}
+			}
+			for _, path := range []string{"role", "refresh"} {
+				rr, pan := env.serve(roleReq(path, pv.values))
+				cert := verifParseCertBody(rr.Body.Bytes())
+				issued := rr.Code == 200 && cert != nil
+				class := c10Class(rr.Code, issued, pan)
+				res.eval(fmt.Sprintf("param|%s|%s|%d", path, pv.note, rr.Code), true)
+				res.bump("pubkey-parameter:" + path)
+				cs := map[string]interface{}{"path": path, "shape": pv.note, "pubkey_values": pv.values, "keys": pr.s.desc + " / " + pr.w.desc}
+				if pan {
+					res.hit(verifHit{Key: "C10:panic:" + path, Oracle: "panic", What: fmt.Sprintf("path %s panicked on a pubkey parameter (%s)", path, pv.note), Case: cs})
+				}
+				if issued {
+					var certKey crypto.PublicKey
+					if cert.x509 != nil {
+						certKey = cert.x509.PublicKey
+					}
+					if !c10Strong(certKey) || !expectStrong {
+						res.hit(verifHit{Key: "C10:weak-certified:" + path, Oracle: "a weak or unknown key was certified",
+							What: fmt.Sprintf("path %s issued a certificate for a pubkey parameter whose first value is not a strong key (%s)", path, pv.note), Case: cs, Observed: rr.Code})
+					}
+				} else if !expectStrong && class == 2 && !pan {
+					res.hit(verifHit{Key: "C10:weak-not-client-error:" + path + ":pubkey-parameter", Oracle: "a malformed key is refused with a non-client-error status",
+						What: fmt.Sprintf("path %s answers %d for a pubkey parameter (%s)", path, rr.Code, pv.note), Case: cs, Observed: rr.Code})
+				}
+				cases = append(cases, fmt.Sprintf("(%d, [%s], %d)", c10PathIndex(path), strings.Join(coq, "; "), class))
+				vals := fmt.Sprintf("%q", pv.values)
+				if len(vals) > 600 {
+					vals = vals[:600] + "..."
+				}
+				idx = append(idx, fmt.Sprintf("pubkey-parameter path=%s shape=%q keys=%s/%s status=%d issued=%v panic=%v values=%s", path, pv.note, pr.s.desc, pr.w.desc, rr.Code, issued, pan, vals))
+			}
+		}
+	}
+	res.Extra["param_cases"] = len(cases)
 	return cases, idx
 }
